@@ -47,7 +47,25 @@ pub fn hist_check(ctx: &CheckCtx, hp: &HistProp) -> Option<Found> {
             return Some(f);
         }
     }
+    if ctx.tier == Tier::Thorough {
+        // coverage-guided campaign over the same generators and the same oracle
+        let hp_static = by_id(hp.id)?;
+        if let Some(f) = crate::fuzz::campaign(ctx, &hist_fuzz_subs(hp_static), 150_000, 16) {
+            return Some(f);
+        }
+    }
     None
+}
+
+pub fn by_id(id: &str) -> Option<&'static HistProp> {
+    [&C01, &C02, &C05, &C06, &C07, &C08, &C09, &C13, &C14, &C15, &C16].into_iter().find(|h| h.id == id)
+}
+
+pub fn hist_fuzz_subs(hp: &'static HistProp) -> Vec<crate::fuzz::FuzzSub> {
+    (hp.profiles)()
+        .into_iter()
+        .map(|(name, profile, _, _)| crate::fuzz::sub(name, case_strategy(&profile), move |c: &HistCase| run_case_for(hp, c)))
+        .collect()
 }
 
 pub fn hist_replay(hp: &HistProp, case: serde_json::Value) -> Result<Option<Violation>, String> {
@@ -118,6 +136,7 @@ fn c02_profiles() -> Vec<(&'static str, Profile, u32, u32)> {
     p.k_probe = 1;
     p.probe_lifecycle_pct = 0;
     p.k_gen = 7;
+    p.o_async = 3;
     p.o_cause = 16;
     p.o_insert = 8;
     p.o_token = 5;
@@ -434,13 +453,13 @@ pub static C14: HistProp = HistProp {
 pub static C15_META: PropMeta = PropMeta {
     id: "C15",
     level: "fault_enumeration",
-    rule: "cases: histories with injected faults: a probe registration that fails at sub-source step k (rolled back by the source), failing reregister/unregister/process_events/before_sleep, scripted Err returns from any source kind, while other sources have events in the same batch; the history continues afterwards (retries, dispatches). oracle: failing insert returns Err and hands the source back, occupied slots / lifecycle set / kernel table unchanged, no callback for the rejected source, no panic in any later dispatch; failing enable/update/disable returns its error and calls nothing on other sources; an Err from event processing is returned by that dispatch, and every cause that was pending before it (incl. timers already expired into that batch) is served by the following Ok dispatches. non-trivial: a fault at step > 0 of a multi-sub-source registration, or an Err from process_events while another event was still owed in that dispatch; distinct by case fingerprint",
+    rule: "cases: histories with injected faults: a probe registration that fails at sub-source step k (rolled back by the source), a book-style composite with a child the poller rejects (regular file: siblings' registrations, incl. armed timer children, are performed and not rolled back), Generic/adapt_io over closed / duplicate / regular-file fds, failing reregister/unregister/process_events/before_sleep, scripted Err returns from any source kind, while other sources have events in the same batch; the history continues afterwards (retries, dispatches). oracle: failing insert returns Err and hands the source back, occupied slots / lifecycle set / kernel table unchanged, no callback for the rejected source, no panic in any later dispatch; failing enable/update/disable returns its error and calls nothing on other sources; an Err from event processing is returned by that dispatch, and every cause that was pending before it (incl. timers already expired into that batch) is served by the following Ok dispatches; behind any such fault every callback-legality, obligation, timer and removal rule of the monitor (C01/C02/C05/C06 rule sets) keeps being enforced for all sources (rule C15.intact: e.g. a stale sub-registration left by the rejected source must never reach the source that takes over its slot). non-trivial: a fault at step > 0 of a multi-sub-source registration, or an Err from process_events while another event was still owed in that dispatch; distinct by case fingerprint",
     assumptions: ASSUME,
 };
 
 fn c15_profiles() -> Vec<(&'static str, Profile, u32, u32)> {
     let mut p = Profile::base();
-    p.k_comp = 1;
+    p.k_comp = 3;
     p.k_probe = 8;
     p.probe_lifecycle_pct = 60;
     p.o_fail = 10;
@@ -467,6 +486,9 @@ pub static C15: HistProp = HistProp {
         }
         if f.failed_adapts > 0 {
             c.push("failed_adapt_io");
+        }
+        if f.failed_comp_left_timer > 0 {
+            c.push("composite_insert_failed_halfway_timer_child_left_registered");
         }
     },
     epoll_each_step: true,
